@@ -392,6 +392,34 @@ func normalise(prog *ssa.Program) (map[*ssa.Function]bool, *ssa.VerifNorm, []str
 				renames = append(renames, fn.String()+": taken to be "+gone[0]+" in another form")
 			}
 		}
+		// several functions of one signature converted at once: pair them by their unchanged simple names
+		for k, gone := range gone2 {
+			if len(gone) < 2 {
+				continue
+			}
+			for _, old := range gone {
+				if matched[old] {
+					continue
+				}
+				var same []*ssa.Function
+				for _, fn := range new2[k] {
+					if !matchedFn[fn] && fn.Name() == old[strings.LastIndex(old, ".")+1:] {
+						same = append(same, fn)
+					}
+				}
+				nOld := 0
+				for _, o := range gone {
+					if o[strings.LastIndex(o, ".")+1:] == old[strings.LastIndex(old, ".")+1:] {
+						nOld++
+					}
+				}
+				if len(same) == 1 && nOld == 1 {
+					FuncAlias[same[0]] = old
+					matched[old], matchedFn[same[0]] = true, true
+					renames = append(renames, same[0].String()+": taken to be "+old+" in another form (same name)")
+				}
+			}
+		}
 		// third pass: a method that did not use its receiver turned into a plain function of the same name (or a
 		// function given a receiver): same package, same name, same parameters apart from the receiver
 		simple := func(name string) string { return name[strings.LastIndex(name, ".")+1:] }
@@ -491,6 +519,22 @@ func normalise(prog *ssa.Program) (map[*ssa.Function]bool, *ssa.VerifNorm, []str
 		}
 	}
 	norm.Glue = func(callee *ssa.Function) bool { return absorbable[callee] }
+	// no function of the repository recovers from a panic: a helper's deferred calls can then be placed at its exits
+	norm.NoRecover = true
+	for fn := range ssautil.AllFunctions(prog) {
+		if fn.Pkg == nil || fn.Pkg.Pkg == nil || !strings.HasPrefix(fn.Pkg.Pkg.Path(), ModulePath) {
+			continue
+		}
+		for _, b := range fn.Blocks {
+			for _, in := range b.Instrs {
+				if ci, ok := in.(ssa.CallInstruction); ok {
+					if bi, ok := ci.Common().Value.(*ssa.Builtin); ok && bi.Name() == "recover" {
+						norm.NoRecover = false
+					}
+				}
+			}
+		}
+	}
 	for _, fn := range fns {
 		if absorbable[fn] {
 			continue // only ever seen through its callers
